@@ -1,8 +1,8 @@
-from . import streams_geom, cli
+from . import streams_geom, streams_interp, cli
 
 ID = 'C11'
-PROPS_MODULE = ['Refine.Props.C11']
-STREAMS = [streams_geom.INTERP, streams_geom.BARY, cli.INTERP, cli.INTERP_MPI]
+PROPS_MODULE = ['Refine.Props.C11', 'Refine.Props.C11Search']
+STREAMS = [streams_geom.INTERP, streams_geom.BARY, streams_interp.SEARCH, streams_interp.SELF, cli.INTERP, cli.INTERP_MPI]
 EXPLANATION = (
     'Proved (Lean 4, exact real arithmetic, over the executable model bit-compared with the C): ref_node_clip_bary2/3/4 '
     'return a point of the simplex on the success branch (w_i >= 0, sum 1) and a unit vector on the REF_DIV_ZERO branch; '
@@ -15,11 +15,29 @@ EXPLANATION = (
     '(interp_linear_clipped). '
     'Tie: the real ref_interp_scalar is called on a one-cell donor grid with the stored (cell, bary) set by the harness '
     '(np=3 and np=4 donors), ref_node_bary4 + ref_interp_scalar composed, and clip_bary2/3/4 directly: bit comparison. '
-    'Oracle: range, sum-of-clipped-weights formula, linear exactness and vertex identity in exact rational arithmetic.')
+    'Oracle: range, sum-of-clipped-weights formula, linear exactness and vertex identity in exact rational arithmetic. '
+    'Donor-cell search (Props/C11Search, model Model/Interp = ref_interp_create_search, ref_interp_enclosing_tet/tri_in_list, '
+    'ref_interp_tree, the ref_interp_locate retry loop, ref_interp_walk_agent, ref_interp_locate_node): the search sphere of a '
+    'cell (all node_per vertices, radius x donor_scale >= 1) contains the closed cell (boundingSphere_contains_all); every cell '
+    'that encloses the query is in the ref_search_touching candidate list for every tree shape (tree_candidates_complete); the '
+    'selected candidate has the largest min weight (inList_max_min), hence encloses the query if any candidate does '
+    '(inList_picks_enclosing); end to end for tets: a receptor vertex inside some donor tet is located by the tree path in a cell '
+    'with non-negative weights and every linear field is interpolated exactly (tree_linear_exact_inside); a walk that ends '
+    'ENCLOSING holds a valid cell with all four weights >= inside = -1e-12, any other outcome claims no cell and the loop is '
+    'bounded by 215 steps (walk_sound, walk_limit); ref_interp_locate_node returns one of the two (locateNode_sound). '
+    'Tie (stream interp_search): donor grids built in process (2-D/3-D, aspect 1..100, needles with the far vertex in every local '
+    'position, recycled cell ids), per-cell sphere bits, tree arrays, candidate lists, in_list cell+weights, ref_interp_tree, '
+    'ref_interp_locate on receptors without geometry nodes (tree path only) + ref_interp_scalar of a linear field, single-agent '
+    'ref_interp_walk_agent, ref_interp_locate_node: bit comparison; oracle with exact rational weights. Stream interp_self '
+    '(oracle only): ref_interp_locate onto a shrunk copy of the donor, where geometry nodes seed the walk.')
 ASSUMPTIONS = [
     'IEEE rounding is modelled (Float instance, bit-compared), not verified: the theorems hold in exact real arithmetic',
-    'not verified: that the search (walk / tree / nearest boundary triangle) returns a nearby donor cell: the theorems hold '
-    'for ANY single donor cell, which is what range and convexity need',
+    'not verified: walk completeness (that the neighbour walk reaches the enclosing cell; when it does not, the tree path '
+    'takes over, which is proved complete); the agent queue / seeding order of ref_interp_locate with geometry nodes (exercised '
+    'by the oracle-only stream interp_self and the CLI streams, not modelled); ref_interp_nearest_tet_via_tri_in_tree; the 2-D '
+    'end-to-end statement assumes the query in the donor plane (ref_node_bary3 ignores z, the search sphere does not)',
+    'outside the donor domain the tree path stores the candidate with the largest min weight among the cells whose scaled '
+    'sphere is within search_fuzz: convexity then comes from the clip (interp_range), nearness is not quantified',
     'not verified here: the blind-send round trip of the parallel evaluation (serial np=1 only in this harness)',
     'for 2-D donors ref_interp_scalar clips all four stored weights but sums three: the range bound needs the stored 4th '
     'weight <= 0 (it is 0 in what ref_interp stores)',
